@@ -64,3 +64,28 @@ check('C07', TV,
       'obligations may be undecided (reported). Tolerance-regime atoms (quad, scaled squares): optimum sandwich only.',
       'SMT exists-forall LRA/NRA projection + log-linear tower theorem + exact LRA/LIRA optimisation',
       'DESIGN.md section 4 C07')
+
+check('C08', TV,
+      'Both the real do_math() and do_math(primal=False) outputs are read as exact-rational programs P and D. z3 '
+      'decides weak duality over ALL feasible pairs (exists x,y: P(x), D(y), c\'x+d\'y<0 is unsat; QF_LRA for LPs, '
+      'QF_NRA for SOC), computes both optima exactly (z3 Optimize) and checks opt(D) = -opt(P) and that D is solvable '
+      'whenever P is feasible and bounded; SOC: a primal/dual pair closing the gap exists. Every pair of the 10 '
+      'per-variable bound patterns (free, >=0, <=0, finite lower/upper, both, fixed at 0, fixed non-zero, [0,u], [l,0]) '
+      'is enumerated, plus seeded 3-variable members, SOC members with shared cone variables and ro members.',
+      'Trusted: z3 (Optimize for exact LRA optima). Exp-cone and LMI dual blocks are outside (conjugate of exp). SOC '
+      'weak-duality/gap obligations are stretch (may be undecided). ECOS is used only to establish that a SOC primal is '
+      'bounded (precondition), never as the oracle.',
+      'SMT weak-duality inclusion (QF_LRA/QF_NRA) + exact LRA optimisation of primal and dual formulas',
+      'DESIGN.md section 4 C08')
+
+check('C11', TV,
+      'Each generated program (LP, MILP with binaries/integers and user bounds cutting into or fixing [0,1], SOCP, '
+      'infeasible and unbounded members) is solved on a fresh model through every installed interface that supports it; '
+      'for each pair z3 decides the certificate against the exact-rational compiled program: a truly feasible point '
+      '(integrality included) exists within tolerance of the returned vector; no feasible point is better than the '
+      'reported objective; for programs z3 proves infeasible/unbounded the interface reports no solution and get() raises.',
+      'Trusted: z3; the exact optimum of MILPs is computed by solver-guided enumeration of integer assignments. The '
+      'interface code and C libraries run concretely (in a child process with a time limit); exp-cone programs are '
+      'outside; tolerance 1e-6 (LP/MILP), 1e-4 (interior-point SOC).',
+      'SMT certification (QF_LRA/QF_LIRA/QF_NRA) of every interface result against the compiled program',
+      'DESIGN.md section 4 C11')
